@@ -564,7 +564,9 @@ DynamicBitset& DynamicBitset::operator >>=( size_t pos) noexcept( true)
    {
       mData[ idx] = mData[ idx + pos];
    } // end for
-   for (size_t idx = mData.size() - pos; idx < mData.size(); ++idx)
+   // if the bitset is shifted by its size or more, all bits are cleared
+   for (size_t idx = (pos < mData.size()) ? mData.size() - pos : 0;
+        idx < mData.size(); ++idx)
    {
       mData[ idx] = false;
    } // end for
